@@ -36,7 +36,7 @@ from comb_spec_searcher.rule_db import RuleDB, RuleDBForgetStrategy
 from comb_spec_searcher.strategies.rule import VerificationRule
 
 ID = "C05"
-QUICK_RUNS = 12000
+QUICK_RUNS = 40000
 CHUNK = 150
 WATCHDOG = 45.0
 THOROUGH_BUDGET_S = 600
